@@ -73,8 +73,9 @@ type Sim struct {
 	Wait func()
 
 	// I/O hooks installed by the harness
-	FS     FS
-	Radius RadiusFunc
+	FS       FS
+	Radius   RadiusFunc
+	UDPWrite UDPWriteFunc
 
 	start    time.Time
 	Hash     uint64
